@@ -46,8 +46,12 @@ def check_result(ctx, res, exp_samples, region, case, what):
     return True
 
 
+HUGE = {"+10**5000": 10 ** 5000, "-10**5000": -(10 ** 5000)}  # written symbolically in cases: they have no decimal spelling (int -> str limit)
+
+
 def sample_slice(ctx, region, samples, a, b, case_base, dress=0):
     case = dict(case_base, view="samples", a=a, b=b, bound_types=dress)
+    a, b = HUGE.get(a, a) if isinstance(a, str) else a, HUGE.get(b, b) if isinstance(b, str) else b
     try:
         res = region[_dress(a, dress) : _dress(b, dress)]
     except Exception as exc:
@@ -111,6 +115,7 @@ def _dress(x, how):
 def time_slice(ctx, region, samples, a, b, case_base, view, via_temporary=False, dress=0):
     rate = region.sampling_rate
     case = dict(case_base, view=view, a=a, b=b, via_temporary=via_temporary, bound_types=dress)
+    a, b = HUGE.get(a, a) if isinstance(a, str) else a, HUGE.get(b, b) if isinstance(b, str) else b
     try:
         if via_temporary:
             # the view of a region nobody else holds: region[...].seconds[...]
@@ -180,9 +185,44 @@ def type_errors(ctx, region, case_base):
             ctx.violation(f"{view}-bad-index-raises-{type(exc).__name__}", {"case": dict(case_base, bad_index_no=i)})
 
 
-def mk_region(rng, n, width, channels, rate):
+class _NamedTake(AudioRegion):
+    """an application's region class with a constructor of its own (regions are a public dataclass; subclassing is plain use)"""
+
+    def __init__(self, name, data, rate, width, channels):
+        super().__init__(data, rate, width, channels)
+        object.__setattr__(self, "name", name)
+
+
+class _KeywordTake(AudioRegion):
+    def __init__(self, data, sampling_rate, sample_width, channels, *, label="take"):
+        super().__init__(data, sampling_rate, sample_width, channels)
+        object.__setattr__(self, "label", label)
+
+
+class _PaddedTake(AudioRegion):
+    """adds one sample of silence at construction: its audio is what its .data holds"""
+
+    def __init__(self, data, sampling_rate, sample_width, channels, start=None):
+        super().__init__(bytes(data) + bytes(sample_width * channels), sampling_rate, sample_width, channels, start)
+
+
+def build_region(cls, data, rate, width, channels):
+    if cls == "named":
+        return _NamedTake("take-1", data, rate, width, channels)
+    if cls == "keyword":
+        return _KeywordTake(data, rate, width, channels, label="x")
+    if cls == "padded":
+        return _PaddedTake(data[: len(data) - width * channels], rate, width, channels)  # -> .data == data
+    return AudioRegion(data, rate, width, channels)
+
+
+def mk_region(rng, n, width, channels, rate, cls=None):
     data = rng.randbytes(n * width * channels)
-    return AudioRegion(data, rate, width, channels), data
+    if cls == "padded" and n == 0:
+        cls = None
+    if cls == "padded":
+        data = data[: len(data) - width * channels] + bytes(width * channels)
+    return build_region(cls, data, rate, width, channels), data
 
 
 def run_shard(ctx):
@@ -215,17 +255,26 @@ def run_shard(ctx):
         width, channels = rng.choice((1, 2, 4)), rng.choice((1, 2, 3, 4))
         rate = rng.choice((1, 3, 8, 10, 100, 1000, 8000, 16000, 44100, 48000))
         n = rng.choice((0, 1, 2, rng.randint(0, 12), rng.randint(0, 40)))
-        region, data = mk_region(rng, n, width, channels, rate)
+        cls_ = rng.choice(("named", "keyword", "padded")) if i % 8 == 3 else None
+        if cls_ == "padded" and n == 0:
+            cls_ = None
+        region, data = mk_region(rng, n, width, channels, rate, cls_)
         samples = sample_list(data, width * channels)
         base = {"n": n, "width": width, "channels": channels, "rate": rate, "data": data.hex()}
+        if cls_:
+            base["cls"] = cls_
+            ctx.count("regions_of_application_subclasses")
+            if bytes(region) != data:
+                ctx.violation("harness-exception-subclass-data", {"case": base})
+                continue
 
         def ib():
-            return rng.choice((None, 0, 1, -1, n, -n, n + 1, -n - 1, rng.randint(-n - 3, n + 3), 10 ** 12, -10 ** 12, 2 ** 70, -2 ** 70))
+            return rng.choice((None, 0, 1, -1, n, -n, n + 1, -n - 1, rng.randint(-n - 3, n + 3), 10 ** 12, -10 ** 12, 2 ** 70, -2 ** 70, "+10**5000", "-10**5000"))
 
         def tb():
             d = n / rate
             return rng.choice((None, 0, 0.0, d, -d, d / 2, rng.uniform(-1.2 * d - 1e-3, 1.2 * d + 1e-3), rng.randint(-n - 1, n + 1) / rate,
-                               (rng.randint(0, n) + 0.5) / rate, -(rng.randint(0, n) + 0.5) / rate, 1e9, -1e9, int(d) + 1, 10 ** 400, -(10 ** 400), 2 ** 1024))
+                               (rng.randint(0, n) + 0.5) / rate, -(rng.randint(0, n) + 0.5) / rate, 1e9, -1e9, int(d) + 1, 10 ** 400, -(10 ** 400), 2 ** 1024, "+10**5000", "-10**5000"))
 
         def mb():
             d = int(1000 * n / rate)
@@ -238,13 +287,28 @@ def run_shard(ctx):
         kept_s, kept_m = region.seconds, region.millis
         other_region.seconds, other_region.millis, other_region.sec, other_region.ms
         a_, b_ = tb(), tb()
-        if (a_ is None or abs(a_) < 1e9) and (b_ is None or abs(b_) < 1e9):
+        if not isinstance(a_, str) and not isinstance(b_, str) and (a_ is None or abs(a_) < 1e9) and (b_ is None or abs(b_) < 1e9):
             ctx.count("kept_views_checked")
             if bytes(kept_s[a_:b_]) != bytes(region.seconds[a_:b_]) or kept_s[a_:b_].sampling_rate != rate:
                 ctx.violation("kept-view-slices-another-region", {"case": dict(base, view="seconds", a=a_, b=b_)})
             ma_, mb_ = mb(), mb()
             if bytes(kept_m[ma_:mb_]) != bytes(region.millis[ma_:mb_]):
                 ctx.violation("kept-view-slices-another-region", {"case": dict(base, view="millis", a=ma_, b=mb_)})
+        if i % 40 == 7 and n:
+            # only the VIEWS are kept (returned from a helper, stored in a list); the region variable is gone and a garbage
+            # collection has run: the views still slice their region
+            import gc
+
+            tmp_region, tmp_data = mk_region(rng, n, width, channels, rate)
+            only_s, only_m = tmp_region.seconds, tmp_region.millis
+            del tmp_region
+            gc.collect()
+            ctx.count("views_used_after_their_region_variable_is_gone")
+            try:
+                if bytes(only_s[0:None]) != tmp_data or bytes(only_m[0:None]) != tmp_data or bytes(only_s[0 : 1 / rate]) != tmp_data[: width * channels]:
+                    ctx.violation("view-outliving-the-region-variable-slices-wrong", {"case": dict(base, data=tmp_data.hex())})
+            except Exception as exc:
+                ctx.violation("view-outliving-the-region-variable-raises:" + type(exc).__name__, {"case": dict(base, data=tmp_data.hex()), "exception": repr(exc)[:200]})
         for k_ in range(3):
             sample_slice(ctx, region, samples, ib(), ib(), base, dress=rng.choice((0, 0, 1, 2)))
             time_slice(ctx, region, samples, tb(), tb(), base, "seconds", via_temporary=(k_ == 1), dress=rng.choice((0, 0, 1, 2)))
@@ -272,9 +336,9 @@ def run_shard(ctx):
 
 def replay(ctx, case):
     data = bytes.fromhex(case["data"])
-    region = AudioRegion(data, case["rate"], case["width"], case["channels"])
+    region = build_region(case.get("cls"), data, case["rate"], case["width"], case["channels"])
     samples = sample_list(data, case["width"] * case["channels"])
-    base = {k: case[k] for k in ("n", "width", "channels", "rate", "data")}
+    base = {k: case[k] for k in ("n", "width", "channels", "rate", "data", "cls") if k in case}
     if "bad_index_no" in case:
         type_errors(ctx, region, base)
     elif case.get("view", "samples") == "samples":
@@ -286,7 +350,7 @@ def replay(ctx, case):
 def inconclusive(merged, tier):
     c = merged["counters"]
     need = ["sample_slices", "sample_slices_negative_bound", "seconds_slices", "millis_slices", "millis_vs_seconds_compared",
-            "type_error_cases", "exhaustive_sample_slices", "slices_through_a_temporary_region", "kept_views_checked", "repo_tests_region_slices_checked"]
+            "type_error_cases", "exhaustive_sample_slices", "slices_through_a_temporary_region", "kept_views_checked", "repo_tests_region_slices_checked", "regions_of_application_subclasses", "views_used_after_their_region_variable_is_gone"]
     return [f"monitor never observed {k}" for k in need if c.get(k, 0) == 0]
 
 
